@@ -20,7 +20,8 @@ Theorems about three models of `src/pyrtma/data_logger/*` and `utils/quicklogger
   is no lock in this code**: that the two events suffice is the theorem `fine_no_swap_under_writer`.
   Theorems (`section fine`), all for EVERY configuration, operation list, failure pattern and EVERY interleaving of
   single accesses: `fine_no_loss_no_dup_no_reorder` / `fine_complete_if_done`, `fine_no_swap_under_writer`,
-  `fine_writer_parked_while_recorder_owns`, `fine_loaded_references_current`, `fine_writer_never_dies` (no failure ⇒
+  `fine_writer_parked_while_recorder_owns`, `fine_loaded_references_current`, `fine_batch_stable`,
+  `fine_writer_never_dies` (no failure ⇒
   nothing raises), `fine_failure_is_never_silent` / `fine_told_on_failure`, `fine_stop_waits_only_for_writer`,
   `fine_stop_terminates_or_hangs`, `fine_stop_returns`, `fine_complete_after_fair_run`,
   `fine_stop_terminates_patched`; and the defect C17-F3 exhibited: `stop_hangs_after_writer_death`,
@@ -189,6 +190,24 @@ scripts of file operations are in range (so the model's "unreachable" branches a
 theorem fine_loaded_references_current (c : Fine.Cfg) (ops : List RecOp) (sched : List Fine.Tid) :
     WLoc c (Fine.run c ops sched) ∧ RLoc c (Fine.run c ops sched) :=
   ⟨(Fine.run_inv c ops sched).wloc, (Fine.run_inv c ops sched).rloc⟩
+
+/-- **The batch a formatter method iterates is stable**: while the writer is inside `formatter.write(wbuf)` or
+`formatter.finalize(wbuf)` for data set `i`, whatever the recording thread does next leaves the list object the
+method was called with, and the attribute `wbuf`, as they are — both passes of the quicklogger formatter (headers,
+then payloads) and the `self.wbuf.clear()` that follows see one and the same list; and while `stop()`'s own
+`finalize` iterates, the writer changes no data set at all. -/
+theorem fine_batch_stable (c : Fine.Cfg) (ops : List RecOp) (sched : List Fine.Tid)
+    (ho : (Fine.run c ops sched).over = false) :
+    (∀ i, ((Fine.run c ops sched).wpc = .call i ∨ (Fine.run c ops sched).wpc = .dCall i) →
+      ((Fine.stepR c (Fine.run c ops sched)).ds i).lists (Fine.run c ops sched).wcall.l =
+        ((Fine.run c ops sched).ds i).lists (Fine.run c ops sched).wcall.l ∧
+      ((Fine.stepR c (Fine.run c ops sched)).ds i).wb = ((Fine.run c ops sched).ds i).wb ∧
+      (Fine.run c ops sched).wcall.l = ((Fine.run c ops sched).ds i).wb) ∧
+    (∀ j, (Fine.run c ops sched).rpc = .sCall j →
+      (Fine.stepW c (Fine.run c ops sched)).ds = (Fine.run c ops sched).ds ∧
+      (Fine.run c ops sched).rcall.l = ((Fine.run c ops sched).ds j).wb) :=
+  ⟨fun i hw => (Fine.run_inv c ops sched).batch_stable_W ho i hw,
+   fun j hr => (Fine.run_inv c ops sched).batch_stable_R ho j hr⟩
 
 /-- **Without file-system failures nothing raises**: the writer never dies (no write, seek or copy ever hits a
 closed file or a closed temp file) and neither `update` nor `stop` raises — on every schedule. -/
